@@ -1,4 +1,6 @@
-"""C05 — decided on the session machine, plus a read whose reply is in flight across a logout on another replica."""
+"""C05 — decided on the session machine, plus a read whose reply is in flight across a logout on another replica, plus - for the
+last clause, "a cookie-honouring browser no longer holds the session cookie" - browser histories (real router, real SSO proxy in
+front of the real SSO server, net/http/cookiejar) in which every logout variant is requested at the server and through the proxy."""
 import json
 
 from lib import vf
@@ -6,6 +8,56 @@ from lib.machine import authenticated
 from lib.props import _mach
 
 LOGOUT_OK = {"lo": 302, "ll": 204, "fc": 200}
+# the same in the endpoint letters of the browser scripts (lib/props/_cookie.py): logout, local logout, front-channel logout
+SCRIPT_LOGOUT_OK = {"O": 302, "K": 204, "F": 200}
+
+
+def monitor_browser(ctx, infile, implfile):
+    """From the property text: "Once a logout, local logout or front-channel logout for a session has answered with success ...
+    a cookie-honouring browser no longer holds the session cookie". The browser of the scripts keeps every cookie it is given and
+    drops exactly what a Set-Cookie header tells it to drop (net/http/cookiejar). After every logout variant that answered with
+    its success status - requested at the instance itself (standalone, SSO server) or at an application's origin behind an SSO
+    proxy, which relays local and front-channel logout to the SSO server - the jar must return the session cookie to no URL of
+    the deployment. (The proxy's own /oauth2/logout is not a logout: it sends the browser on to the SSO server's.)"""
+    from lib.props import _cookie as ck
+    st = {"histories": 0, "logouts_answered_success": 0, "of_which_through_the_sso_proxy": 0, "of_which_with_a_session_cookie_in_the_jar_before": 0}
+    sigs = set()
+    with open(infile) as fi, open(implfile) as fo:
+        for li, lo in zip(fi, fo):
+            if not li.startswith(("cscript ", "cpscript ")):
+                continue
+            sc = ck.Script(li)
+            cfg = sc.cfg
+            res = ck.parse_output(lo, sc)
+            st["histories"] += 1
+            sname = cfg.name("session")
+            history = []
+            held_before = False
+            for it, r in zip(sc.items, res):
+                history.append(ck.describe_item(sc, it))
+                held = sorted({("https" if p[0] else "http") + "://" + p[1] + p[2] for (p, cs) in r["probes"] if any(n == sname for n, _ in cs)})
+                if it["kind"] == "R":
+                    px = it.get("proxy", False)
+                    if SCRIPT_LOGOUT_OK.get(it["ep"]) == r["status"] and not (px and it["ep"] == "O"):
+                        st["logouts_answered_success"] += 1
+                        st["of_which_through_the_sso_proxy"] += px
+                        st["of_which_with_a_session_cookie_in_the_jar_before"] += held_before
+                        mode = "sso" if cfg.sso else "standalone"
+                        sigs.add((mode, px, it["ep"], held_before, bool(held)))
+                        if held:
+                            case = {"config": sc.describe(), "history": list(history), "status": r["status"], "set_cookie": r["cookies"],
+                                    "browser_still_returns_the_session_cookie_to": held, "browser_held_the_session_cookie_before": held_before}
+                            if px:
+                                ctx.violation("c05-browser-holds-session-cookie-after-logout-via-sso-proxy",
+                                              "a %s requested at the application's origin (SSO proxy, relayed to the SSO server) answered %d, but the "
+                                              "cookie-honouring browser still holds the session cookie"
+                                              % ({"K": "local logout", "F": "front-channel logout"}[it["ep"]], r["status"]), case)
+                            else:
+                                ctx.violation("c05-browser-holds-session-cookie-after-logout",
+                                              "a %s answered %d, but the cookie-honouring browser still holds the session cookie"
+                                              % ({"O": "logout", "K": "local logout", "F": "front-channel logout"}[it["ep"]], r["status"]), case)
+                held_before = bool(held)
+    return st, len(sigs)
 
 
 def run(ctx):
@@ -39,3 +91,30 @@ def run(ctx):
     ctx.nontrivial += n
     ctx.extra["inflight_read_scenarios"] = n
     ctx.rule += "; plus %d scenarios {first request kind} x {logout variant on the other replica} x {later request kind} x {standalone, SSO server} with one store read executed but undelivered across the logout" % n
+
+    # last clause: "... and a cookie-honouring browser no longer holds the session cookie" - browser histories with every logout
+    # variant at the instance and through an SSO proxy (wwh ssocookies: the SSO deployments of the cookie driver, cscript / cpscript
+    # lines, plus standalone deployments with one ingress)
+    from lib.props import _cookie as ck
+    prec = ctx.path("browser")
+    out, dt = vf.run_driver(["ssocookies", "-out", prec, "-seed", str(ctx.seed), "-tier", ctx.tier, "-chains=false", "-with-standalone"] + ck.driver_flags())
+    ctx.timings["browser_histories"] = round(dt, 2)
+    ctx.correspondence("browser histories: Set-Cookie headers of the real router (standalone, SSO server, SSO proxy relaying to the SSO server) and "
+                       "net/http/cookiejar contents after every step vs Model/Cookie.v, Jar.v, Retry.v", prec + ".in", prec + ".impl")
+    bst, bnt = monitor_browser(ctx, prec + ".in", prec + ".impl")
+    ctx.extra["browser_after_logout"] = bst
+    if bst["of_which_through_the_sso_proxy"] == 0 or bst["of_which_with_a_session_cookie_in_the_jar_before"] == 0:
+        ctx.broken.append({"kind": "harness", "name": "browser histories control: no successful logout through the SSO proxy / none by a browser holding a session cookie", "first": bst})
+    ctx.nontrivial += bnt
+    ctx.rule += ("; plus browser histories (%d, of which %d successful logouts, %d through an SSO proxy): SSO deployments {same-site x domain spelling x legacy cookie x rate limit, "
+                 "ingress at the root / nested, localhost} with and without an SSO proxy in front of an application {root, path prefix, both}, standalone deployments with one ingress "
+                 "{localhost, host root, path prefix}: login, then every logout variant at the instance and through the proxy, error paths (store failing during the relayed "
+                 "logout), logouts without a session, re-logins, random mixes; the jar probed at every host of the deployment after every step"
+                 % (bst["histories"], bst["logouts_answered_success"], bst["of_which_through_the_sso_proxy"]))
+    ctx.assumptions += [
+        "a cookie-honouring browser = net/http/cookiejar (RFC 6265 storage model, no public-suffix list), one jar for all hosts of the deployment; "
+        "Secure cookies over plain http are stored but never returned",
+        "browser clause driven for deployments in which the logout is requested under the ingress path the session cookie was set for (SSO deployments: always; "
+        "standalone: one ingress); two ingresses with nested paths on one host / the prefix of another host's ingress leave the cookie in the browser - "
+        "the known findings of C14 (c14-nested-ingress-clear-path, c14-cross-ingress-clear-path, Properties/C14.v c14_nested_prefix_refuted), reported there",
+    ]
